@@ -31,6 +31,9 @@ BUILT = {
     'C10': ('crash-point style enumeration: every instruction boundary of every generated program is a save point, through the real tool, over configuration deviations',
             'For every program (prologue + each letter of a stateful alphabet + epilogue with IM 2 interrupt, HALT wait, prefix chain, LDIR, port writes, 128K paging/AY) and every split point n1 = 1..N-1, trace.main run for N instructions equals trace.main run for n1, snapshot, then N-n1 from the snapshot: all registers incl. R and MEMPTR (SZX), all RAM banks, border, fe, 7ffd, fffd, AY, iff, im, T mod frame. Configurations: deviations (d <= 1 quick, d <= 2 thorough) over {szx,z80} x {48K,128K} x {plain,--cmio} x {C,--python} x start T (frame-180, three frames later, frame-60, 2^24-170).',
             'Both legs start from the same initial SZX file (common mode). For .z80 mid files MEMPTR, the MEMPTR-derived F bits 3/5 under --cmio and the port-0xFE byte (no field in the format beyond the border colour) are exempt. Programs other than the generated ones are not covered.'),
+    'C14': ('bounded-exhaustive enumeration of token-sequence memory images x ranges x options x code maps (execution traces in every map format; all 256 subsets of a window) through the real tools sna2ctl -> sna2skool -> skool2bin',
+            'Every image made of <= 3 (thorough 4) tokens from a 21-token alphabet (terminal/conditional jumps into and out of the range, prefixes alone, DD before an unmodified opcode, RST with arguments, text, zero runs, data, an instruction cut off by END) x {whole range, first token dropped, last byte dropped} x options (-C, -r, -h, -l, TextMinLength*, TextChars, Dictionary); execution-trace code maps (computed by the reference model from every token start) in each of five map formats; every subset of an 8-byte window as an arbitrary map on six images. sna2ctl must terminate (10 s watchdog), its block directives must start at START, strictly increase and end with i END, every mapped address must lie in a c block, sna2skool must not warn, every sub-block directive must sit on an instruction boundary of the skool file, and the skool file must reassemble to the original bytes (C01 oracle).',
+            'Trusted: the token alphabet as the space of image shapes; mc/refs/z80ref.py for execution traces. The generated control file is fed to sna2skool with default options. Six defects found by this check were repaired (known_findings.json F1b, F13-F16).'),
     'C15': ('bounded-exhaustive enumeration of tile arrays x scale x crop x mask x flip/rotate x transparency deviations through the real image writer, against an independent PNG decoder and a per-pixel display model',
             'Every image in a geometry sweep (bases x scale 1..8 x mask type 0..2 x the full crop alphabet) and in all deviations d <= 3 (thorough 4) over shape, attributes, graphics, masks, flip, rotate, tindex, alpha, animation, second frame with offsets and shared Udg objects (each x scale 1..8 x mask 0..2 x 6 crop rectangles) is written by ImageWriter.write_image and by sna2img / skool2html image macros, validated by an independent PNG/APNG decoder (signature, chunk order, lengths, CRCs, IHDR/PLTE/tRNS/acTL/fcTL/fdAT consistency, zlib stream length, all filters) and compared pixel by pixel, frame by frame, with the Spectrum display rules and the documented mask truth tables; the flash frame must be confined to the reported rectangle; every specialised encoder must agree with the generic one (all seven reached: vacuity guards).',
             'Trusted: mc/refs/png.py (self-tested on malformed files at start-up), mc/refs/pixels.py (display rules, mask truth tables from the documentation), zlib. Default [Colours] and compression level only; crop origins outside the image and ragged arrays excluded. Built by a sub-agent under the lead\'s contract (BUILDING.md).'),
